@@ -33,7 +33,22 @@ def runHistory (rows cols n : Nat) (pd0 : List Nat) (ops : List Json) : Except S
     else throw "unknown op"
   pure out
 
+def getPyVal (j : Json) : Except String PyVal := do
+  let kind ← getStr j "kind"
+  if kind == "int" then pure (.int (← getInt j "k"))
+  else if kind == "npint" then pure (.npInt 0 false (← getInt j "k"))
+  else if kind == "bool" then pure (.bool (← getBool j "b"))
+  else if kind == "npbool" then pure (.npBool (← getBool j "b"))
+  else if kind == "float" then pure (.float (← getRat j "v"))
+  else if kind == "str" then pure (.str "" (← getOptInt j "parsed"))
+  else if kind == "none" then pure .none
+  else throw "unknown value kind"
+
 def handlers : List (String × Handler) := [
+  ("stdFrameIndexV", fun j => do
+    let v ← getPyVal (← j.getObjVal? "v")
+    let r := stdFrameIndexV v (← getBool j "as_index") (← getInt j "n")
+    pure (exceptToJson (fun (i : Int) => (i : Json)) r)),
   ("getFramesBits", fun j => do
     let pd ← getNatList j "pd"
     let rows ← getInt j "rows"; let cols ← getInt j "cols"; let n ← getInt j "n"
